@@ -74,9 +74,10 @@ func (f *forExpander) run() {
 		state = state(f)
 	}
 
-	// add an extra EOF in case we end without one
-	// we don't want to block on reading from the channel
-	f.tokens <- token{tokEOF, ""}
+	// the state machine may or may not have ended the stream with an EOF or
+	// error token; closing the channel tells the reader in either case, and
+	// unlike a send it cannot block once the reader has stopped
+	close(f.tokens)
 	f.closed = true
 }
 
@@ -92,8 +93,12 @@ func (f *forExpander) Tokens() ([]token, error) {
 		return nil, fmt.Errorf("no more tokens")
 	}
 	tokens := make([]token, 0)
-	for !f.closed {
-		tok := <-f.tokens
+	for {
+		tok, ok := <-f.tokens
+		if !ok {
+			// the expander stopped without an EOF or error token
+			tok = token{tokEOF, ""}
+		}
 		tokens = append(tokens, tok)
 		if tok.typ == tokEOF || tok.typ == tokError {
 			break
@@ -368,6 +373,10 @@ func forRof(f *forExpander) forStateFn {
 func forEmitConsumeStream(f *forExpander) forStateFn {
 	for f.nextToken.typ != tokEOF {
 		f.tokens <- f.nextToken
+		if f.nextToken.typ == tokError {
+			// the reader stops at an error token, nothing may follow it
+			return nil
+		}
 		f.next()
 	}
 	return nil
